@@ -1,9 +1,182 @@
-(* C02 - placeholder while the proofs are being developed *)
+(* C02 - Canvas composition is equivalent to operating on a plain grid of cells.
+   Only statements here; every proof is [exact <lemma>] into Proofs/Canvas*.v.
+
+   The model (Model/Canvas.v) is a line-by-line transcription of urwid/canvas.py: shards,
+   cviews, shard tails with (cview, rows-done) cursors for the Python iterators, and every
+   composite operation.  The reference (Model/CanvasGrid.v) interprets the same operation
+   language over a plain list of rows of cells.  [gstep] is defined exactly where the
+   property defines the operation.  The theorems say: wherever the grid semantics is defined,
+   the shard machinery raises nothing and its content(), cols(), rows() and coords are
+   those of the grid. *)
 From Coq Require Import ZArith List Bool.
 Import ListNotations.
-From Urwid Require Import PyBase Canvas.
+From Urwid Require Import PyBase Canvas CanvasGrid CanvasFacts CanvasAbs CanvasVert CanvasProg.
 Open Scope Z_scope.
 
-Theorem c02_placeholder : forall s, shards_rows (s ++ []) = shards_rows s.
-Proof. intros; now rewrite app_nil_r. Qed.
-Print Assumptions c02_placeholder.
+(* ------------------------------------------------------------------------------------------
+   The invariant.  [WF s] is [wfb s = true] for the boolean checker [wfb] of Model/Canvas.v
+   (positive sizes; every cview inside its leaf canvas; every cview present in a shard at
+   least as tall as what remains of it; in every shard the widths add up to the canvas
+   width; nothing pending at the end).  It is also evaluated by the extracted model on every
+   canvas of every correspondence case and must be true wherever the operations are defined.
+   ------------------------------------------------------------------------------------------ *)
+
+(* --- content() on a well-formed canvas does not raise, has rows() rows, each cols() wide --- *)
+Theorem content_reports_size :
+  forall s rows, WF s -> content s = Ok rows ->
+    zlen rows = shards_rows s /\ Forall (fun r : row => zlen r = shards_cols s) rows.
+Proof. exact content_size. Qed.
+Print Assumptions content_reports_size.
+
+Theorem content_defined :
+  forall s, WF s -> exists rows, content s = Ok rows.
+Proof. intros s H. destruct (WF_elim _ H) as (_ & _ & _ & C). eauto. Qed.
+Print Assumptions content_defined.
+
+(* --- the Python shard algorithm (shard_body / shard_body_row / shard_body_tail over
+       iterators) computes the rows of the "remaining rows" machine of Proofs/CanvasAbs.v;
+       this is the key lemma every operation theorem goes through --- *)
+Theorem content_correct :
+  forall s, WF s -> content s = Ok (acontent_from (map abs_sh s) []).
+Proof. intros s H. destruct (WF_elim _ H) as (_ & _ & _ & C). exact C. Qed.
+Print Assumptions content_correct.
+
+(* --- vertical stacking: CanvasCombine is list append on shards --- *)
+Theorem stacking_is_row_append :
+  forall s1 s2 r1 r2,
+    WF s1 -> WF s2 -> shards_cols s1 = shards_cols s2 -> content s1 = Ok r1 -> content s2 = Ok r2 ->
+    WF (s1 ++ s2) /\ content (s1 ++ s2) = Ok (r1 ++ r2) /\
+    shards_cols (s1 ++ s2) = shards_cols s1 /\ shards_rows (s1 ++ s2) = shards_rows s1 + shards_rows s2.
+Proof. exact combine_shards. Qed.
+Print Assumptions stacking_is_row_append.
+
+(* --- shards_trim_rows keeps the first k rows; shards_trim_top drops the first rows --- *)
+Theorem trim_rows_is_take :
+  forall s k rows, WF s -> 0 < k -> content s = Ok rows ->
+    exists s', shards_trim_rows s k = Ok s' /\ WF s' /\ content s' = Ok (takez k rows) /\ shards_cols s' = shards_cols s.
+Proof. exact trim_rows_shards. Qed.
+Print Assumptions trim_rows_is_take.
+
+Theorem trim_top_is_drop :
+  forall s top rows, WF s -> 0 < top < shards_rows s -> content s = Ok rows ->
+    exists s', shards_trim_top s top = Ok s' /\ WF s' /\ content s' = Ok (dropz top rows) /\ shards_cols s' = shards_cols s.
+Proof. exact trim_top_shards. Qed.
+Print Assumptions trim_top_is_drop.
+
+(* --- attribute remapping: cell by cell, and remapping twice is remapping by the composed map --- *)
+Theorem fill_attr_is_cell_map :
+  forall m s rows, WF s -> content s = Ok rows ->
+    WF (fill_shards m s) /\ content (fill_shards m s) = Ok (map (map (cell_map_attr (Some m))) rows) /\
+    shards_cols (fill_shards m s) = shards_cols s /\ shards_rows (fill_shards m s) = shards_rows s.
+Proof. exact fill_attr_shards. Qed.
+Print Assumptions fill_attr_is_cell_map.
+
+Theorem fill_attr_composes :
+  forall m2 m1 a, map_attr (Some (combine_map m2 m1)) a = map_attr (Some m2) (map_attr (Some m1) a).
+Proof. exact map_attr_combine. Qed.
+Print Assumptions fill_attr_composes.
+
+(* --- a double-width character cut by a window becomes a space, and a window of a window
+       is the window (so cutting twice never emits half a character either) --- *)
+Theorem window_never_emits_half_a_character :
+  forall r s e, row_cleanb (trim_cells r s e) = true.
+Proof. exact row_clean_trim_cells. Qed.
+Print Assumptions window_never_emits_half_a_character.
+
+Theorem window_of_window :
+  forall r a b c d, 0 <= a -> b <= zlen r -> 0 <= c -> c < d -> d <= b - a ->
+    trim_cells (trim_cells r a b) c d = trim_cells r (a + c) (a + d).
+Proof. exact trim_cells_trim_cells. Qed.
+Print Assumptions window_of_window.
+
+(* ------------------------------------------------------------------------------------------
+   The composition theorem.  [vrel v gv]: the model canvas [v] and the grid value [gv] agree:
+   a leaf is its grid; a composite is well-formed, its content() is the grid, its coords and
+   finalized flag are those of the grid value.  [vrel_gives_observables] spells out what that
+   means for content(), cols(), rows() and the cursor / pop-up coordinates.
+   ------------------------------------------------------------------------------------------ *)
+Theorem vrel_gives_observables :
+  forall v gv, vrel v gv ->
+    value_content v = Ok (gg gv) /\ vcols v = Ok (gwidth (gg gv)) /\ vrows v = Ok (gheight (gg gv)) /\ vcoords v = gco gv.
+Proof. exact vrel_observables. Qed.
+Print Assumptions vrel_gives_observables.
+
+(* FULL statement: for EVERY program of canvas operations (any depth, any sharing through
+   the environment) on which the grid semantics is defined, the shard model does not raise and
+   every canvas on its stack and in its environment agrees with the grid. *)
+Definition canvas_composition_is_grid_full : Prop :=
+  forall leaves prog gst,
+    grun leaves (GS [] []) prog = Some gst ->
+    exists st, run leaves (MS [] [] []) prog = (st, None) /\
+               Forall2 vrel (env st) (genv gst) /\ Forall2 vrel (stack st) (gstack gst).
+
+(* PROVED part: the same for every program that does not use the three instructions whose
+   simulation lemma is not proved yet ([proved_instr]: everything except IJoin, IOverlay,
+   IPadLR).  Those three are covered by the correspondence and the oracle only. *)
+Theorem canvas_composition_is_grid_partial :
+  forall leaves prog gst,
+    Forall (fun i => proved_instr i = true) prog ->
+    grun leaves (GS [] []) prog = Some gst ->
+    exists st, run leaves (MS [] [] []) prog = (st, None) /\
+               Forall2 vrel (env st) (genv gst) /\ Forall2 vrel (stack st) (gstack gst).
+Proof.
+  intros leaves prog gst P G.
+  destruct (run_sim leaves prog (MS [] [] []) (GS [] []) gst) as (st & R & S1 & S2); [split; constructor|exact P|exact G|].
+  exists st. auto.
+Qed.
+Print Assumptions canvas_composition_is_grid_partial.
+
+(* one step, for any related states (this is the induction step of the theorem above) *)
+Theorem every_proved_operation_simulates :
+  forall leaves st gst i gst',
+    srel st gst -> proved_instr i = true -> gstep leaves gst i = Some gst' ->
+    exists st', step leaves st i = Ok st' /\ srel st' gst'.
+Proof. exact step_sim. Qed.
+Print Assumptions every_proved_operation_simulates.
+
+(* ------------------------------------------------------------------------------------------
+   The delta clause - stated, not proved; decided by the correspondence and the oracle.
+   ------------------------------------------------------------------------------------------ *)
+Definition delta_apply_full : Prop :=
+  forall new old rows_new rows_old d,
+    WF new -> WF old -> shards_cols new = shards_cols old -> shards_rows new = shards_rows old ->
+    content new = Ok rows_new -> content old = Ok rows_old ->
+    delta_from (shards_delta new old) [] = Ok d ->
+    apply_delta rows_old d = rows_new.
+
+(* ------------------------------------------------------------------------------------------
+   Non-vacuity: concrete leaves with double-width characters, a program using every proved
+   operation; the grid semantics is defined on it, the invariant holds and the model agrees.
+   ------------------------------------------------------------------------------------------ *)
+Definition ex_wide (a : Z) (ch : Z) : list cell := [Cell KL a 0 [ch]; Cell KR a 0 []].
+Definition ex_leaf1 : canvas :=
+  Canvas 1 (LText [ ex_wide 1 19990 ++ [Cell KN 0 0 [97]] ++ ex_wide 2 30028;
+                    [Cell KN 0 0 [98]] ++ ex_wide 3 35486 ++ [Cell KN 0 1 [113]; Cell KN 0 0 [99]] ] 5).
+Definition ex_leaf2 : canvas := Canvas 2 (LSolid 0 [46] 5 2).
+Definition ex_leaves : list (canvas * option (Z * Z)) := [(ex_leaf1, Some (2, 1)); (ex_leaf2, None)].
+Definition ex_prog : list instr :=
+  [ ILeaf 1; ILeaf 2; ILeaf 1; ICombine 3; IFillAttr [(0, 7); (2, 5)]; ITrim 1 (Some 4); IPadTB 1 (-1);
+    ISetPopUp 9 1 1; IBind; IRef 0; IWrap; ITrimEnd 2; IFinalize; IBind ].
+
+Example ex_grid_defined :
+  match grun ex_leaves (GS [] []) ex_prog with
+  | Some gst => map (fun v => (gheight (gg v), gwidth (gg v), gco v)) (genv gst)
+  | None => []
+  end = [ (4, 5, Coords (Some (2, 5)) (Some (1, 1, 9))); (2, 5, Coords (Some (2, 5)) (Some (1, 1, 9))) ].
+Proof. vm_compute. reflexivity. Qed.
+
+Example ex_model_agrees :
+  match grun ex_leaves (GS [] []) ex_prog with
+  | Some gst =>
+      let '(st, err) := run ex_leaves (MS [] [] []) ex_prog in
+      (err, map value_content (env st), forallb (fun v => match v with VComp c => wfb (cshards c) | VLeaf _ _ => false end) (env st))
+      = (None, map (fun v => Ok (gg v)) (genv gst), true)
+  | None => False
+  end.
+Proof. vm_compute. reflexivity. Qed.
+
+(* the window of a row that cuts two double-width characters: both become spaces *)
+Example ex_cut :
+  trim_cells (ex_wide 1 19990 ++ [Cell KN 0 0 [97]] ++ ex_wide 2 30028) 1 4
+  = [Cell KN 1 0 [32]; Cell KN 0 0 [97]; Cell KN 2 0 [32]].
+Proof. vm_compute. reflexivity. Qed.
